@@ -128,8 +128,28 @@ Fixpoint fin_scan (pk : list fpacket) (fin : option Z) (data_seen : list Z) : bo
       else fin_scan r fin data_seen
   end.
 
+(* The numbering clause of the property is about an endpoint that closes ON ITS OWN INITIATIVE.  Two
+   other ways to a FIN exist in the code and are not judged by it: the dispatcher's channel closing
+   (process_all_incoming_messages: the connection can no longer receive, a FIN is sent at once whatever is
+   outstanding — teardown of the socket, C08), and the answer to the PEER's FIN taken in Established
+   (LastAck{our_fin = seq_nr}: the peer has closed, segments already cut but not yet sent are abandoned).
+   own_prefix keeps the steps before the first such event. *)
+Definition peer_initiated (st : fstep) : bool :=
+  negb (is_local_fin_or_later (f_state (fs_pre st))) &&
+  match f_state (fs_post st) with LastAck _ _ | Closed => true | _ => false end.
+
+Fixpoint own_prefix (tr : list fstep) : list fstep :=
+  match tr with
+  | [] => []
+  | st :: r =>
+      match fs_event st with
+      | FeCloseInbox => []
+      | _ => if peer_initiated st then [] else st :: own_prefix r
+      end
+  end.
+
 Definition c17_fin_seq_ok (cfg : vconfig) (tr : list fstep) : bool :=
-  fin_scan (all_pkts tr) None [].
+  fin_scan (all_pkts (own_prefix tr)) None [].
 
 (* ------------------------------------------------------------------ (d) the peer's FIN *)
 (* messages delivered since the last poll that drained the inbox; None = unknown (a poll stopped
